@@ -18,6 +18,7 @@ Case = {'seed', 'ext', 'containers': [spec...], 'ops': [...]};  ops:
   ['exit', i]       the container's process is gone: its sockets are closed
   ['finish', i]     finish / _cleanup_network of container i
   ['refinish', i]   the same, but interrupted just before `network_client.delete` (allocation kept)
+  ['cutfinish', i, k]  the same, but the (k+1)-th removal call (unlink_rule / rm_ip_set / unlink_all) raises
   ['plant', kind, i, j, owner]   an entry that exists on the host independently of the run under
                     test, created through the real create_rule / create_spec / add_ip_set; its key is
                     derived from container i (so that it may collide with what i registers)
@@ -178,10 +179,15 @@ def gen_case(rng, pid, tier):
             x = rng.random()
             if x < 0.15:
                 ops.append(['exit', i])
-            elif x < 0.35:
+            elif x < 0.25:
                 ops.append(['refinish', i])
                 if rng.random() < 0.5:
                     ops.append(['refinish', i])
+            elif x < 0.35:
+                # a fault inside the clean-up (an `ipset` / unlink call fails), possibly twice, before the retry
+                ops.append(['cutfinish', i, rng.randrange(0, 14)])
+                if rng.random() < 0.3:
+                    ops.append(['cutfinish', i, rng.randrange(0, 14)])
             elif x < 0.42 and conts[i]['mode'] == 'direct':
                 ops.append(['start', i])         # started twice (edge stream)
             else:
@@ -236,6 +242,19 @@ class _Env:
         self.net_get = []
         self.rule_log = []
         self.pid = 1
+        self.cut = None                          # remaining removal calls before the injected fault
+        self.cut_hit = False
+
+    def removal(self):
+        """Called at the start of every removal primitive of `_cleanup_network` (unlink_rule, rm_ip_set,
+        unlink_all): raises the injected fault when the budget is used up."""
+        if self.cut is None:
+            return
+        if self.cut == 0:
+            self.cut = None
+            self.cut_hit = True
+            raise OSError(errno.EIO, 'harness: injected fault')
+        self.cut -= 1
 
 
 def _make_socket_module(env):
@@ -372,6 +391,7 @@ class _RecRules:
 
     def unlink_rule(self, chain, rule, owner):
         self._env.rule_log.append(('u', chain, rule))
+        self._env.removal()
         return self._real.unlink_rule(chain=chain, rule=rule, owner=owner)
 
     def __getattr__(self, name):
@@ -418,7 +438,14 @@ def _run_impl(case, root):
     tm_env.metrics_dir = os.path.join(root, 'metrics')
     real_rules = rulefile.RuleMgr(rules_dir, apps_dir)
     tm_env.rules = _RecRules(real_rules, env)
-    tm_env.endpoints = tm_endpoints.EndpointsMgr(eps_dir)
+    class _CutEndpoints(tm_endpoints.EndpointsMgr):
+        """The real EndpointsMgr; `unlink_all` is one of the removal calls a fault can hit."""
+        __slots__ = ()
+
+        def unlink_all(self, *a, **kw):
+            env.removal()
+            return super(_CutEndpoints, self).unlink_all(*a, **kw)
+    tm_env.endpoints = _CutEndpoints(eps_dir)
     netclient = _NetClient(env, ext)
     tm_env.svc_network.make_client.return_value = netclient
     runtime_config = mock.Mock()
@@ -440,6 +467,7 @@ def _run_impl(case, root):
         if len(a) == 3 and a[0] == 'add':
             env.ipsets[a[1]].add(a[2])
         elif len(a) == 3 and a[0] == 'del':
+            env.removal()
             env.ipsets[a[1]].discard(a[2])
         else:
             raise Exception('harness: unexpected ipset call %r' % (args,))
@@ -654,7 +682,7 @@ def _run_impl(case, root):
         line = 'start ' + tokens(man, spec['pid'], pass_order('c'))
         run.op(line, 'res=%s ptok=1 live=%s %s' % (res, show_live(), show_state()))
 
-    def do_finish(i, keep):
+    def do_finish(i, keep, cut=None):
         nonlocal repeated
         spec = conts[i]
         uniq = unique_name(spec)
@@ -663,6 +691,8 @@ def _run_impl(case, root):
         env.rule_log = []
         env.net_get = []
         env.keep_alloc = keep
+        env.cut = cut
+        env.cut_hit = False
         before = snapshot()
         man = manifests.get(i)
         raised = None
@@ -678,9 +708,33 @@ def _run_impl(case, root):
             raised = '%s:%s' % (type(err).__name__, getattr(err, 'errno', ''))
         finally:
             env.keep_alloc = False
+            env.cut = None
         after = snapshot()
         account(i, '_cleanup_network', before, after)
         t = track.get(i)
+        if cut is not None and not env.cut_hit:
+            run.tags.add('cut-beyond-end')      # fewer removal calls than the budget: this was a complete finish
+        if cut is not None and env.cut_hit:
+            # a fault at the (cut+1)-th removal call.  Nothing is expected of the state yet: the container stays
+            # 'started' and the next complete finish has to remove everything; what belongs to others is untouched
+            run.tags.add('cut-hit')
+            if t is not None:
+                others_b = frozenset(e for e in before if not belongs(e, i))
+                others_a = frozenset(e for e in after if not belongs(e, i))
+                if others_a != others_b:
+                    hits.append(fw.Hit(clause='not-restored', call_site='_cleanup_network(interrupted)',
+                                       detail='%s extra=%r missing=%r' % (uniq, sorted(others_a - others_b)[:4],
+                                                                          sorted(others_b - others_a)[:4])))
+            repeated = True
+            if man is None:
+                return
+            an = env.net_get[0] if env.net_get else None
+            line = ('cutfinish %d ' % cut) + tokens(man, spec['pid'], pass_order('u'))
+            # (the injected fault itself is expected to surface; any other exception is reported)
+            other = raised is not None and not (env.cut_hit and raised == 'OSError:%d' % errno.EIO)
+            run.op(line, '%san=%s ptok=1 live=%s %s' % ('RAISED=%s ' % raised if other else '',
+                                                       'none' if an is None else '%s:%s' % an, show_live(), show_state()))
+            return
         if raised is not None and t is not None and t['state'] != 'started':
             # "finishing is safe to repeat": a repeated finish must not blow up either
             hits.append(fw.Hit(clause='not-idempotent', call_site='_cleanup_network',
@@ -844,6 +898,8 @@ def _run_impl(case, root):
                 do_finish(op[1], False)
             elif k == 'refinish':
                 do_finish(op[1], True)
+            elif k == 'cutfinish':
+                do_finish(op[1], False, op[2])
             elif k == 'exit':
                 do_exit(op[1])
             elif k == 'plant':
